@@ -239,7 +239,10 @@ pub struct Report {
 
 pub struct Explorer {
     pub threads: usize,
-    pub deadline: Option<Instant>,
+    /// the exploration budget; the clock starts with the first enumeration pass, so that building
+    /// the input lists (which is not exploration and cannot be cut short) does not eat into it
+    pub cap_s: Option<f64>,
+    pub deadline: std::sync::OnceLock<Option<Instant>>,
     pub distinct: Distinct,
     pub distinct_nontrivial: AtomicU64,
     pub capped: AtomicBool,
@@ -259,15 +262,20 @@ impl Explorer {
     pub fn new(threads: usize, cap_s: Option<f64>, distinct_log2: u32) -> Explorer {
         Explorer {
             threads,
-            deadline: cap_s.map(|s| Instant::now() + std::time::Duration::from_secs_f64(s)),
+            cap_s,
+            deadline: std::sync::OnceLock::new(),
             distinct: Distinct::new(distinct_log2),
             distinct_nontrivial: AtomicU64::new(0),
             capped: AtomicBool::new(false),
         }
     }
 
+    fn armed(&self) -> Option<Instant> {
+        *self.deadline.get_or_init(|| self.cap_s.map(|s| Instant::now() + std::time::Duration::from_secs_f64(s)))
+    }
+
     fn past_deadline(&self) -> bool {
-        self.deadline.map_or(false, |d| Instant::now() >= d)
+        self.armed().map_or(false, |d| Instant::now() >= d)
     }
 
     /// Enumerate all spaces completely (or until the deadline). `visit` must be deterministic.
